@@ -129,7 +129,7 @@ func (r *RedisInputStream) readLineBytesSlowly() ([]byte, error) {
 		}
 		b := r.Buf[r.count]
 		r.count++
-		if b == 'r' {
+		if b == '\r' {
 			err := r.ensureFill()
 			if err != nil {
 				return nil, err
